@@ -128,3 +128,16 @@ Proof. exact demo_budget. Qed.
 From UsimGen Require SourcePins Pin_C03.
 Theorem C03_modelled_source_unchanged : forallb SourcePins.pin_ok Pin_C03.pins = true.
 Proof. exact Pin_C03.src_unchanged. Qed.
+
+(** ** known findings: on the faithful machine the full-strength statement "run() never ends with an internal
+    signal / internal assertion" is FALSE; witnesses (also directed scenarios of the check, where the
+    implementation shows the same trace) *)
+From Coq Require Import ZArith.
+From Usim Require Refuted.
+Theorem C03_no_internal_signal_escapes_refuted :
+  exists s, In [2; 91; 21; 2]%Z (Scenario.run_scenario 6000 200000 s).
+Proof. exact Refuted.internal_signal_escapes_refuted. Qed.
+Theorem C03_no_internal_assertion_escapes_refuted :
+  exists s, In [1; 91; 20]%Z (Scenario.run_scenario 6000 200000 s).
+Proof. exact Refuted.internal_assertion_escapes_refuted. Qed.
+Print Assumptions C03_no_internal_signal_escapes_refuted.
